@@ -460,11 +460,12 @@ Msgs(s, T) ==
               d \in Denoms \cup {k.denom : k \in s.baskets}}
     [] T = "BasketCreate" ->
          IF Cardinality(s.baskets) >= MaxBaskets THEN {} ELSE
-         {[type |-> T, curator |-> a, name |-> nm, ct |-> "C", classes |-> cs, dar |-> dr,
+         \* (every credit type of the state: a three-letter abbreviation gives the four-letter middle part eco.uBIO.x)
+         {[type |-> T, curator |-> a, name |-> nm, ct |-> ct, classes |-> cs, dar |-> dr,
            crit |-> cr, fee |-> f]
             \* (a third name only where three baskets may exist: more baskets than batches, seeded change C09-i)
             : a \in Users, nm \in (IF MaxBaskets >= 3 THEN {"NCT", "BCT", "XCT"} ELSE {"NCT", "BCT"}), cs \in Seqs1(ClassIds(s)), dr \in BOOLEAN,
-              cr \in Crits, f \in OfferedFees}
+              cr \in Crits, f \in OfferedFees, ct \in {c.abbr : c \in s.ctypes}}
     [] T = "Put" ->
          {[type |-> T, owner |-> a, basket_denom |-> k, credits |-> cs]
             : a \in Users, k \in BasketDenoms(s),
